@@ -47,9 +47,14 @@ def snapRec (s : St Float) (op : Rec) : Rec :=
   else
     let id := op.int "id"
     match find? s id with
-    | none => (Rec.mk' "snap").addI "id" id |>.addI "known" 0 |>.addI "sp" s.sp
+    | none =>
+      -- the getters' answers for a unit that is not registered: zeros, not alive, "last attacker" the unit itself
+      (Rec.mk' "snap").addI "id" id |>.addI "known" 0 |>.addI "sp" s.sp |>.addF "hpr" 0 |>.addF "energy" 0 |>.addF "stance" 0
+        |>.addF "maxenergy" 0 |>.addF "maxstance" 0 |>.addB "full" false |>.addB "alive" false |>.addI "last" id
     | some u => (Rec.mk' "snap").addI "id" id |>.addI "known" 1 |>.addF "hpr" u.hpRatio |>.addF "energy" u.energy
         |>.addF "stance" u.stance |>.addS "life" (lifeStr u.life) |>.addI "last" u.lastAttacker |>.addI "sp" s.sp
+        |>.addF "maxenergy" u.maxEnergy |>.addF "maxstance" u.maxStance |>.addB "full" (u.energy ≥ u.maxEnergy)
+        |>.addF "eratio" (u.energy / u.maxEnergy) |>.addB "alive" (u.life == .alive)
 
 def tagsOf (evs : List (Ev Float)) : List String :=
   evs.map fun
